@@ -433,6 +433,13 @@ fn format_int(buf: &mut [u8], mut v: u128) -> usize {
     if v == 0 {
         w = put_zero(buf, w);
     } else {''')
+brk('c14_concat_order_swapped', 'C14', OBJ, '''                Arc::make_mut(&mut l).push_str(&r);
+                Ok(Value::String(l))''', '''                let mut r = r;
+                Arc::make_mut(&mut r).push_str(&l);
+                Ok(Value::String(r))''')
+brk('c14_size_plus_one_for_maps', 'C14', FUN, '''        Value::Map(m) => m.map.len(),
+        Value::String(s) => s.len(),''', '''        Value::Map(m) => m.map.len() + 1,
+        Value::String(s) => s.len(),''')
 # ---- C19
 brk('c19_skip_loop_step', 'C19', REF, '''                comp.loop_step._references(variables, functions);
 ''', '')
